@@ -47,6 +47,16 @@ class OpsMixin:
         if "array_bytes" in c:
             et = t["of"]
             return VArr(len(c["array_bytes"]), tuple(self.const_int(et, x) for x in c["array_bytes"]))
+        if "assoc_const" in c:
+            # `Self::NAME` in a trait's default method: the value the implementing type gives it
+            ga = getattr(frame, "gargs", None) or []
+            self_ty = next((g for g in ga if isinstance(g, int)), None)
+            if self_ty is not None:
+                for k in self.fx.raw.get("consts", []):
+                    if k.get("item") == c["assoc_const"] and k.get("self_ty") == self_ty and isinstance(k.get("value"), dict):
+                        return self.eval_const(st, frame, k["value"])
+            self.unmodelled["assoc const %s::%s" % (c.get("trait"), c["assoc_const"])] += 1
+            return VUnknown(ty, self.fresh("assoc")) if t["k"] != "int" else self.top_int(ty)
         if "static" in c:
             cell = ("static", c["static"])
             if cell not in st.cells:
@@ -365,6 +375,16 @@ class OpsMixin:
                     m = mb
                 res = self.top_int(ty, 0, m)
                 return VInt(ty, res.lin, m, nb, tn)
+            if base in ("BitOr", "BitXor"):
+                # an aligned value or-ed with a small offset (chunk_start | j): or == xor == add
+                for x, y in ((a, b), (b, a)):
+                    lo_y, hi_y = self.bounds(st, y.lin)
+                    if lo_y is None or hi_y is None or lo_y < 0:
+                        continue
+                    k = max(1, int(hi_y).bit_length())
+                    m = 1 << k
+                    if x.lin.c % m == 0 and all(cf % m == 0 for cf in x.lin.t.values()) and self.ent(st, c_le(Lin.const(0), x.lin)):
+                        return VInt(ty, x.lin + y.lin, None, nb, tn)
             if ma is not None and mb is not None:
                 if (ma & mb) == 0:
                     # disjoint bits: or == xor == add
